@@ -174,8 +174,11 @@ class C18(Prop):
     nontrivial_rule = (
         "kinds flowdemux/fibdemux/switch: random tables, output lists (incl. empty and None), end maps, default output, "
         "flow ids incl. negative and unknown, outputs that raise; hub: 0-6 endpoints with/without port devices, with/without "
-        "a ports list, late add_endpoint, senders attached or not; splitter: 2-5 outputs some unattached, header mutation of "
-        "delivered objects; fattree: FatTree(k) k in {2,4,6,8} (thorough 10,12) compared node by node, neighbour list by neighbour list; "
+        "a ports list, senders attached or not, as a sequence of add_endpoint / put / element_id reassignment in any order (hubs that "
+        "start empty, endpoints attached between packets, earlier senders re-sending after each attachment); demuxes and the fair "
+        "switch reconfigured between packets through outs / fib / ends / default_out (assigned or mutated in place), the model "
+        "following the configuration as of each packet; splitter: 2-5 outputs some unattached, outputs re-pointed between packets, "
+        "header mutation of delivered objects; fattree: FatTree(k) k in {2,4,6,8} (thorough 10,12) compared node by node, neighbour list by neighbour list; "
         "fib: generate_flows/generate_fib on FatTree(k) for many seeds with and without tcp, and generate_fib on random graphs with "
         "hand-made paths (incl. non-simple and non-adjacent ones); e2e: simulated fat tree (real Environment, Port, Wire / "
         "FairPacketSwitch egress ports) with per-class sinks, several flows per class. non-trivial = at least one packet / one flow / "
@@ -242,10 +245,33 @@ class C18(Prop):
                 out.append(rng.choice([0, n - 1, n, -n, -n - 1, 10000, 10003, -1]))
         return out
 
+    def _reconf(self, rng, kind, flows, n):
+        """-> (flows, ops): with some probability the element is reconfigured through its public attributes between
+        packets, and the earlier flows are sent again afterwards (so that anything remembered from earlier packets shows)"""
+        if rng.random() > 0.4:
+            return flows, []
+        flows = flows + [rng.choice(flows) for _ in range(rng.randint(1, 4))]
+        ops = []
+        for _ in range(rng.randint(1, 3)):
+            pos = rng.randrange(1, len(flows))
+            f = rng.choice(flows) if rng.random() < 0.8 else rng.randint(-3, 12)
+            if kind == "flowdemux":
+                op = rng.choice([["outs", rng.randint(0, 5)], ["outs_append"], ["default", rng.random() < 0.5]])
+            else:
+                cands = [["fib", self._table(rng, n)], ["fib_set", f, rng.randint(-1, n + 1)], ["fib_set", f, rng.randrange(n) if n else 0],
+                         ["fib_del", f], ["ends_set", f, rng.randint(0, 9)], ["ends_del", f]]
+                if kind == "fibdemux":
+                    cands += [["outs", rng.choice([None, 0, 1, 2, 3, 4])], ["outs_append"], ["default", rng.random() < 0.5],
+                              ["default", rng.random() < 0.5]]
+                op = rng.choice(cands)
+            ops.append([pos] + op)
+        ops.sort(key=lambda o: o[0])
+        return flows, ops
+
     def gen_flowdemux(self, rng):
         n = rng.choice([0, 0, 1, 2, 3, 4, 6])
-        return {"kind": "flowdemux", "nouts": n, "default": rng.random() < 0.5,
-                "flows": self._flow_ids(rng, n, list(range(n)))}
+        flows, ops = self._reconf(rng, "flowdemux", self._flow_ids(rng, n, list(range(n))), n)
+        return {"kind": "flowdemux", "nouts": n, "default": rng.random() < 0.5, "flows": flows, "reconf": ops}
 
     def _table(self, rng, n):
         s = rng.random()
@@ -280,8 +306,9 @@ class C18(Prop):
             ends = [[f, rng.randint(0, 9)] for f in rng.sample(range(-3, 12), rng.randint(1, 3))]
         known = [a for a, _ in (fib or [])] + [a for a, _ in (ends or [])]
         raising = [i for i in range(n) if rng.random() < 0.12]
+        flows, ops = self._reconf(rng, "fibdemux", self._flow_ids(rng, n, known), n)
         return {"kind": "fibdemux", "fib": fib, "outs": outs, "ends": ends, "default": rng.random() < 0.5,
-                "raising": raising, "flows": self._flow_ids(rng, n, known)}
+                "raising": raising, "flows": flows, "reconf": ops}
 
     def gen_switch(self, rng):
         n = rng.randint(1, 6)
@@ -290,20 +317,42 @@ class C18(Prop):
         fib = self._table(rng, n)
         ends = [[f, rng.randint(0, 9)] for f in rng.sample(range(-3, 12), rng.randint(0, 2))]
         known = [a for a, _ in (fib or [])] + [a for a, _ in ends]
+        flows, ops = self._reconf(rng, "switch", self._flow_ids(rng, n, known), n)
         return {"kind": "switch", "sw": "fair", "nports": n, "server": rng.choice(SERVERS), "ncls": rng.randint(1, 3),
-                "fib": fib, "ends": ends, "flows": self._flow_ids(rng, n, known)}
+                "fib": fib, "ends": ends, "flows": flows, "reconf": ops}
 
     def gen_hub(self, rng):
-        n = rng.randint(0, 6)
+        """a hub in use: the constructor population, then attach / send / rename actions in any order"""
+        n = rng.choice([0, 0, 1, 2, 3, 4, 6])
         ports_arg = rng.random() < 0.6
         eps = [[rng.randint(0, 4), ports_arg and rng.random() < 0.5] for _ in range(n)]
         delta = 0
         if ports_arg and rng.random() < 0.08:
             delta = rng.choice([-1, 1])
-        added = [[rng.randint(0, 5), rng.random() < 0.5] for _ in range(rng.choice([0, 0, 0, 1, 2]))]
-        ids = [e[0] for e in eps + added]
-        srcs = [rng.choice(ids) if ids and rng.random() < 0.7 else rng.randint(5, 9) for _ in range(rng.randint(1, 4))]
-        return {"kind": "hub", "eps": eps, "ports_arg": ports_arg, "delta": delta, "added": added, "srcs": srcs}
+        script, ids, senders, count = [], [e[0] for e in eps], [], n
+        for _ in range(rng.randint(1, 10)):
+            r = rng.random()
+            if r < 0.30 and count < 9:
+                e = [rng.randint(0, 6), rng.random() < 0.5]
+                script.append(["attach"] + e)
+                ids.append(e[0])
+                count += 1
+                for sd in senders[-2:]:                    # earlier senders send again after every attachment
+                    if rng.random() < 0.7:
+                        script.append(["send", sd])
+            elif r < 0.38 and count > 0:
+                script.append(["rename", rng.randrange(count), rng.randint(0, 6)])
+            else:
+                u = rng.random()
+                if u < 0.35 and senders:
+                    sd = rng.choice(senders)
+                elif u < 0.8 and ids:
+                    sd = rng.choice(ids)
+                else:
+                    sd = rng.randint(0, 9)                 # possibly a station that is attached later, or never
+                script.append(["send", sd])
+                senders.append(sd)
+        return {"kind": "hub", "eps": eps, "ports_arg": ports_arg, "delta": delta, "added": [], "srcs": [], "script": script}
 
     def gen_splitter(self, rng):
         if rng.random() < 0.3:
@@ -314,7 +363,9 @@ class C18(Prop):
         hdr = [rng.randint(0, 50) for _ in HDR_FIELDS]
         nd = sum(att)
         mut = [[rng.randrange(nd), rng.randrange(len(HDR_FIELDS)), rng.randint(100, 200)] for _ in range(rng.randint(0, 3))] if nd else []
-        return {"kind": "splitter", "cls": cls, "att": att, "hdr": hdr, "mut": mut}
+        # outputs re-pointed between packets: earlier rounds with other attachments, each with its own packet
+        pre = [[rng.random() < 0.7 for _ in range(n)] for _ in range(rng.choice([0, 0, 1, 2]))]
+        return {"kind": "splitter", "cls": cls, "att": att, "hdr": hdr, "mut": mut, "pre": pre}
 
     def _ks(self, tier):
         return [2, 4, 6, 8] if tier == "quick" else [2, 4, 6, 8, 10, 12]
@@ -380,37 +431,108 @@ class C18(Prop):
         with _quiet():
             return getattr(self, "run_" + case["kind"])(case)
 
-    def run_flowdemux(self, case):
-        from onl.netdev.demux import FlowDemux
+    # ---- reconfiguration between packets (public attributes, as applications use them) ------------
+    @staticmethod
+    def _dset(lst, key, val):
+        for x in lst:
+            if x[0] == key:
+                x[1] = val
+                return
+        lst.append([key, val])
+
+    def _apply_state(self, st, op):
+        name = op[1]
+        if name == "outs":
+            st["outs"] = op[2]
+        elif name == "outs_append":
+            if st["outs"] is not None:
+                st["outs"] += 1
+        elif name == "default":
+            st["default"] = op[2]
+        elif name == "fib":
+            st["fib"] = None if op[2] is None else [list(x) for x in op[2]]
+        elif name == "fib_set":
+            if st["fib"] is not None:
+                self._dset(st["fib"], op[2], op[3])
+        elif name == "fib_del":
+            if st["fib"] is not None:
+                st["fib"] = [x for x in st["fib"] if x[0] != op[2]]
+        elif name == "ends_set":
+            self._dset(st["ends"], op[2], op[3])
+        elif name == "ends_del":
+            st["ends"] = [x for x in st["ends"] if x[0] != op[2]]
+        else:
+            raise ValueError(op)
+
+    def _states(self, case):
+        """the configuration as of each packet (one dict per flow)"""
+        kd = case["kind"]
+        if kd == "flowdemux":
+            st = {"outs": case["nouts"], "default": case["default"]}
+        else:
+            st = {"fib": None if case["fib"] is None else [list(x) for x in case["fib"]],
+                  "outs": case["outs"] if kd == "fibdemux" else case["nports"],
+                  "ends": [list(x) for x in (case["ends"] or [])],
+                  "default": case["default"] if kd == "fibdemux" else False}
+        out = []
+        for j in range(len(case["flows"])):
+            for op in case.get("reconf", []):
+                if op[0] == j:
+                    self._apply_state(st, op)
+            out.append({k_: ([list(x) for x in v] if isinstance(v, list) else v) for k_, v in st.items()})
+        return out
+
+    def _apply_impl(self, d, op, log, raising):
+        name = op[1]
+        if name == "outs":
+            d.outs = None if op[2] is None else [Rec(["out", i], log, KeyError if i in raising else None) for i in range(op[2])]
+        elif name == "outs_append":
+            if d.outs is not None:
+                i = len(d.outs)
+                d.outs.append(Rec(["out", i], log, KeyError if i in raising else None))
+        elif name == "default":
+            d.default_out = Rec(["default"], log) if op[2] else None
+        elif name == "fib":
+            d.fib = None if op[2] is None else {f: p for f, p in op[2]}
+        elif name == "fib_set":
+            if d.fib is not None:
+                d.fib[op[2]] = op[3]
+        elif name == "fib_del":
+            if d.fib is not None:
+                d.fib.pop(op[2], None)
+        elif name == "ends_set":
+            d.ends[op[2]] = Rec(["end", op[3]], log)
+        elif name == "ends_del":
+            d.ends.pop(op[2], None)
+        else:
+            raise ValueError(op)
+
+    def _demux_run(self, d, put, log, case):
         from onl.packet import Packet
-        log = []
-        outs = [Rec(["out", i], log) for i in range(case["nouts"])]
-        d = FlowDemux(outs, Rec(["default"], log) if case["default"] else None)
         res = []
         for j, f in enumerate(case["flows"]):
+            for op in case.get("reconf", []):
+                if op[0] == j:
+                    self._apply_impl(d, op, log, case.get("raising", []))
             del log[:]
             raised = None
             pk = Packet(0, 10, j, flow_id=f)
             try:
-                d.put(pk)
-            except Exception as e:
-                raised = _exc(e)
-            res.append({"deliv": [t for t, _ in log], "same": all(p is pk for _, p in log), "raised": raised})
-        return {"res": res, "received": d.packets_recevied}
-
-    def _fibdemux_run(self, d, log, flows):
-        from onl.packet import Packet
-        res = []
-        for j, f in enumerate(flows):
-            del log[:]
-            raised = None
-            pk = Packet(0, 10, j, flow_id=f)
-            try:
-                d.put(pk)
+                put(pk)
             except Exception as e:
                 raised = _exc(e)
             res.append({"deliv": [t for t, _ in log], "same": all(p is pk for _, p in log), "raised": raised})
         return res
+
+    def run_flowdemux(self, case):
+        from onl.netdev.demux import FlowDemux
+        log = []
+        outs = [Rec(["out", i], log) for i in range(case["nouts"])]
+        d = FlowDemux(outs, Rec(["default"], log) if case["default"] else None)
+        res = self._demux_run(d, d.put, log, case)
+        return {"res": res, "received": d.packets_recevied}
+
+
 
     def run_fibdemux(self, case):
         from onl.netdev.demux import FIBDemux
@@ -420,7 +542,7 @@ class C18(Prop):
         ends = None if case["ends"] is None else {f: Rec(["end", dv], log) for f, dv in case["ends"]}
         fib = None if case["fib"] is None else {f: p for f, p in case["fib"]}
         d = FIBDemux(outs=outs, ends=ends, fib=fib, default_out=Rec(["default"], log) if case["default"] else None)
-        res = self._fibdemux_run(d, log, case["flows"])
+        res = self._demux_run(d, d.put, log, case)
         return {"res": res, "received": d.packets_recevied}
 
     def run_switch(self, case):
@@ -461,21 +583,18 @@ class C18(Prop):
             sw.demux.fib = {f: p for f, p in case["fib"]}
         for f, dv in case["ends"]:
             sw.demux.ends[f] = Rec(["end", dv], log)
-        res = []
-        for j, f in enumerate(case["flows"]):
-            del log[:]
-            raised = None
-            try:
-                sw.put(Packet(0, 10, j, flow_id=f))
-            except Exception as e:
-                raised = _exc(e)
-            res.append({"deliv": [t for t, _ in log], "raised": raised})
+        res = self._demux_run(sw.demux, sw.put, log, case)
         sim_raised = None
         try:
             env.run(until=5)
         except Exception as e:
             sim_raised = _exc(e)
         return {"res": res, "sched": slog, "wiring": wiring, "sim_raised": sim_raised}
+
+    def _hub_script(self, case):
+        if "script" in case:
+            return case["script"]
+        return [["attach", a, b] for a, b in case["added"]] + [["send", x] for x in case["srcs"]]
 
     def run_hub(self, case):
         from onl.sim import Environment
@@ -505,53 +624,45 @@ class C18(Prop):
             hub = Hub(env, eps, ports) if case["ports_arg"] else Hub(env, eps)
         except Exception as e:
             return {"construct_raised": _exc(e)}
-        base = len(eps)
         if not case["ports_arg"] or not ports:
             ports = [None] * len(eps)                 # no ports list: every endpoint attached directly
-        for j, (eid, hp) in enumerate(case["added"]):
-            ep = EP(base + j, eid)
-            pt = PortFwd(["port", base + j], log) if hp else None
-            hub.add_endpoint(ep, pt)
-            eps.append(ep)
-            ports.append(pt)
+        res, nsend = [], 0
+        for act in self._hub_script(case):
+            if act[0] == "attach":
+                ep = EP(len(eps), act[1])
+                pt = PortFwd(["port", len(eps)], log) if act[2] else None
+                hub.add_endpoint(ep, pt)
+                eps.append(ep)
+                ports.append(pt)
+            elif act[0] == "rename":
+                if act[1] < len(eps):
+                    eps[act[1]].element_id = "e%d" % act[2]
+            else:
+                del log[:]
+                raised = None
+                pk = Packet(0, 10, nsend, src="e%d" % act[1])
+                nsend += 1
+                try:
+                    hub.put(pk)
+                except Exception as e:
+                    raised = _exc(e)
+                res.append({"events": [t for t, _ in log], "same": all(p is pk for _, p in log), "raised": raised})
         wiring = all(ep.out is hub for ep in eps) and all(pt is None or pt.out is ep for ep, pt in zip(eps, ports))
-        res = []
-        for j, s in enumerate(case["srcs"]):
-            del log[:]
-            raised = None
-            pk = Packet(0, 10, j, src="e%d" % s)
-            try:
-                hub.put(pk)
-            except Exception as e:
-                raised = _exc(e)
-            res.append({"events": [t for t, _ in log], "same": all(p is pk for _, p in log), "raised": raised})
         return {"construct_raised": None, "wiring": wiring, "res": res}
 
     def run_splitter(self, case):
         from onl.netdev.splitter import Splitter, NSplitter
         from onl.packet import Packet
         log = []
-        att = case["att"]
-        if case["cls"] == "Splitter":
-            sp = Splitter()
-            if att[0]:
-                sp.out1 = Rec(0, log)
-            if att[1]:
-                sp.out2 = Rec(1, log)
-        else:
-            sp = NSplitter(len(att))
-            for i, a in enumerate(att):
-                if a:
-                    sp.outs[i] = Rec(i, log)
-        pk = Packet(0, 0, 0)
-        for name, v in zip(HDR_FIELDS, case["hdr"]):
-            setattr(pk, name, v)
-        raised = None
-        try:
-            sp.put(pk)
-        except Exception as e:
-            raised = _exc(e)
-        objs, perhop, prio = [pk], [pk.perhop_time], [pk.priorities]
+        sp = Splitter() if case["cls"] == "Splitter" else NSplitter(len(case["att"]))
+
+        def point(att):                                  # (re-)point the outputs: fresh recorders / None
+            if case["cls"] == "Splitter":
+                sp.out1 = Rec(0, log) if att[0] else None
+                sp.out2 = Rec(1, log) if att[1] else None
+            else:
+                for i, a in enumerate(att):
+                    sp.outs[i] = Rec(i, log) if a else None
 
         def idx(lst, o):
             for i, x in enumerate(lst):
@@ -560,15 +671,35 @@ class C18(Prop):
             lst.append(o)
             return len(lst) - 1
 
-        def view():
-            return [[t, idx(objs, p), [getattr(p, nm) for nm in HDR_FIELDS], idx(perhop, p.perhop_time), idx(prio, p.priorities)]
-                    for t, p in log]
+        def one_put(att, pid):
+            point(att)
+            del log[:]
+            pk = Packet(0, 0, pid)
+            for name, v in zip(HDR_FIELDS, case["hdr"]):
+                setattr(pk, name, v)
+            raised = None
+            try:
+                sp.put(pk)
+            except Exception as e:
+                raised = _exc(e)
+            objs, perhop, prio = [pk], [pk.perhop_time], [pk.priorities]
+
+            def view():
+                return [[t, idx(objs, p), [getattr(p, nm) for nm in HDR_FIELDS], idx(perhop, p.perhop_time), idx(prio, p.priorities)]
+                        for t, p in log]
+            return raised, view
+
+        pre = []
+        for r, att in enumerate(case.get("pre", [])):
+            raised, view = one_put(att, case["hdr"][2])
+            pre.append({"raised": raised, "view": view()})
+        raised, view = one_put(case["att"], case["hdr"][2])
         before = view()
         for j, fld, v in case["mut"]:
             if j < len(log):
                 setattr(log[j][1], HDR_FIELDS[fld], v)
         after = view()
-        return {"raised": raised, "before": before, "after": after}
+        return {"raised": raised, "before": before, "after": after, "pre": pre}
 
     def _graph_obs(self, topo):
         nodes = list(topo.nodes())
@@ -751,9 +882,9 @@ class C18(Prop):
         return getattr(self, "agree_" + case["kind"])(case, obs)
 
     def agree_flowdemux(self, case, obs):
-        cfg = "{| fd_nouts := %s; fd_default := %s |}" % (cf.nat(case["nouts"]), cf.b(case["default"]))
         ts = []
-        for f, r in zip(case["flows"], obs["res"]):
+        for f, r, st in zip(case["flows"], obs["res"], self._states(case)):
+            cfg = "{| fd_nouts := %s; fd_default := %s |}" % (cf.nat(st["outs"]), cf.b(st["default"]))
             o = out_term(r["deliv"], r["raised"])
             if o is None:
                 return "false"
@@ -767,13 +898,12 @@ class C18(Prop):
         return cf.pair(cf.lst([one_out(d) for d in r["deliv"]]), ex)
 
     def agree_fibdemux(self, case, obs):
-        cfg = fibcfg_term(case)
         ts = []
-        for f, r in zip(case["flows"], obs["res"]):
+        for f, r, st in zip(case["flows"], obs["res"], self._states(case)):
             d = self._deliv_term(r)
             if d is None:
                 return "false"
-            ts.append(f"deliv_eqb (fib_deliveries true true true {cfg} {nlist(case['raising'])} {cf.z(f)}) {d}")
+            ts.append(f"deliv_eqb (fib_deliveries true true true {fibcfg_term(st)} {nlist(case['raising'])} {cf.z(f)}) {d}")
         return " && ".join(ts) if ts else "true"
 
     def agree_switch(self, case, obs):
@@ -789,10 +919,12 @@ class C18(Prop):
             return " && ".join(ts) if ts else "true"
         if not obs["wiring"] or obs["sim_raised"]:
             return "false"
-        cfg = ("{| fs_nports := %s; fs_fib := %s; fs_ends := %s; fs_class := (fun f => f mod %s) |}"
-               % (cf.nat(case["nports"]), table_term(case["fib"]), cf.lst([cf.pair(cf.z(a), cf.nat(b)) for a, b in case["ends"]]),
-                  cf.z(case["ncls"])))
+        states = self._states(case)
         for j, (f, r) in enumerate(zip(case["flows"], obs["res"])):
+            st = states[j]
+            cfg = ("{| fs_nports := %s; fs_fib := %s; fs_ends := %s; fs_class := (fun f => f mod %s) |}"
+                   % (cf.nat(case["nports"]), table_term(st["fib"]), cf.lst([cf.pair(cf.z(a), cf.nat(b)) for a, b in st["ends"]]),
+                      cf.z(case["ncls"])))
             o = out_term(r["deliv"], r["raised"])
             if o is None:
                 return "false"
@@ -831,6 +963,17 @@ class C18(Prop):
             ports = ports[:-1] if ports else [False]
         return ports
 
+    def _hub_acts_term(self, case):
+        ts = []
+        for act in self._hub_script(case):
+            if act[0] == "attach":
+                ts.append("HAttach {| ep_id := %s; ep_port := %s |}" % (cf.z(act[1]), cf.b(act[2])))
+            elif act[0] == "rename":
+                ts.append(f"HRename {cf.nat(act[1])} {cf.z(act[2])}")
+            else:
+                ts.append(f"HSend {cf.z(act[1])}")
+        return cf.lst(ts)
+
     def agree_hub(self, case, obs):
         eids = zlist([e[0] for e in case["eps"]])
         ports = blist(self._hub_ports_arg(case))
@@ -842,26 +985,27 @@ class C18(Prop):
             return f"match {make} with inr H{t} => true | _ => false end"
         if not obs["wiring"]:
             return "false"
-        added = cf.lst(["{| ep_id := %s; ep_port := %s |}" % (cf.z(a), cf.b(b)) for a, b in case["added"]])
-        ts = []
-        for s, r in zip(case["srcs"], obs["res"]):
+        exp = []
+        for r in obs["res"]:
             puts = self.hub_puts(r["events"])
             if puts is None or r["raised"] or not r["same"]:
                 return "false"
-            exp = cf.lst([cf.pair(cf.nat(i), cf.b(v)) for i, v in puts])
-            ts.append(f"list_eqb (pair_eqb Nat.eqb Bool.eqb) (hub_put (fold_left hub_add {added} s) {cf.z(s)}) {exp}")
-        body = " && ".join(ts) if ts else "true"
-        return f"match {make} with inl s => {body} | inr _ => false end"
+            exp.append(cf.lst([cf.pair(cf.nat(i), cf.b(v)) for i, v in puts]))
+        return (f"match {make} with inl s => list_eqb (list_eqb (pair_eqb Nat.eqb Bool.eqb)) "
+                f"(hub_run s {self._hub_acts_term(case)}) {cf.lst(exp)} | inr _ => false end")
 
     def _view_term(self, v):
         return cf.lst([cf.pair(cf.nat(t), cf.nat(o), zlist(h), cf.nat(ph), cf.nat(pr)) for t, o, h, ph, pr in v])
 
     def agree_splitter(self, case, obs):
-        if obs["raised"]:
+        if obs["raised"] or any(r["raised"] for r in obs.get("pre", [])):
             return "false"
         heap0 = "[{| hdr := mk_hdr %s; perhop_ref := 0%%nat; prio_ref := 0%%nat |}]" % zlist(case["hdr"])
         muts = cf.lst([cf.pair(cf.nat(j), cf.nat(f), cf.z(v)) for j, f, v in case["mut"]])
-        return (f"split_agree {blist(case['att'])} {heap0} {muts} {self._view_term(obs['before'])} {self._view_term(obs['after'])}")
+        ts = [f"split_agree {blist(att)} {heap0} [] {self._view_term(r['view'])} {self._view_term(r['view'])}"
+              for att, r in zip(case.get("pre", []), obs.get("pre", []))]
+        ts.append(f"split_agree {blist(case['att'])} {heap0} {muts} {self._view_term(obs['before'])} {self._view_term(obs['after'])}")
+        return " && ".join(ts)
 
     def agree_fattree(self, case, obs):
         if obs.get("raised") or not obs["canonical"] or not obs["types_ok"]:
@@ -923,16 +1067,16 @@ class C18(Prop):
     def model_term(self, case):
         kd = case["kind"]
         if kd == "flowdemux":
-            cfg = "{| fd_nouts := %s; fd_default := %s |}" % (cf.nat(case["nouts"]), cf.b(case["default"]))
-            return f"map (flowdemux true {cfg}) {zlist(case['flows'])}"
+            return cf.lst(["flowdemux true {| fd_nouts := %s; fd_default := %s |} %s" % (cf.nat(st["outs"]), cf.b(st["default"]), cf.z(f))
+                           for f, st in zip(case["flows"], self._states(case))])
         if kd == "fibdemux":
-            return f"map (fib_deliveries true true true {fibcfg_term(case)} {nlist(case['raising'])}) {zlist(case['flows'])}"
+            return cf.lst([f"fib_deliveries true true true {fibcfg_term(st)} {nlist(case['raising'])} {cf.z(f)}"
+                           for f, st in zip(case["flows"], self._states(case))])
         if kd == "switch" and case["sw"] == "simple":
             return f"map (simple_switch true {cf.nat(case['nports'])}) {zlist(case['flows'])}"
         if kd == "hub":
-            added = cf.lst(["{| ep_id := %s; ep_port := %s |}" % (cf.z(a), cf.b(b)) for a, b in case["added"]])
             return (f"match hub_make true {zlist([e[0] for e in case['eps']])} {blist(self._hub_ports_arg(case))} with "
-                    f"inl s => inl (map (hub_put (fold_left hub_add {added} s)) {zlist(case['srcs'])}) | inr e => inr e end")
+                    f"inl s => inl (hub_run s {self._hub_acts_term(case)}) | inr e => inr e end")
         if kd == "fattree":
             return f"(ft_nnodes {cf.nat(case['k'])}, length (ft_edges {cf.nat(case['k'])}))"
         if kd == "fib" and case["graph"] == "random":
@@ -950,14 +1094,15 @@ class C18(Prop):
 
     def mon_flowdemux(self, case, obs):
         msgs = []
-        n = case["nouts"]
-        for f, r in zip(case["flows"], obs["res"]):
-            exp = [["out", f]] if 0 <= f < n else ([["default"]] if case["default"] else [])
+        for f, r, st in zip(case["flows"], obs["res"], self._states(case)):
+            n = st["outs"]
+            exp = [["out", f]] if 0 <= f < n else ([["default"]] if st["default"] else [])
             tag = "negative-flow" if f < 0 else "flow"
+            rc = " (after reconfiguration)" if (st["outs"], st["default"]) != (case["nouts"], case["default"]) else ""
             if r["raised"]:
-                msgs.append(f"flowdemux-{tag}-raises: FlowDemux({n} outs, default={case['default']}).put(flow {f}) raised {r['raised']}; expected {exp}")
+                msgs.append(f"flowdemux-{tag}-raises: FlowDemux({n} outs, default={st['default']}){rc}.put(flow {f}) raised {r['raised']}; expected {exp}")
             elif r["deliv"] != exp:
-                msgs.append(f"flowdemux-{tag}-wrong-output: FlowDemux({n} outs, default={case['default']}).put(flow {f}) handed the packet to {r['deliv']}; expected {exp}")
+                msgs.append(f"flowdemux-{tag}-wrong-output: FlowDemux({n} outs, default={st['default']}){rc}.put(flow {f}) handed the packet to {r['deliv']}; expected {exp}")
             elif not r["same"]:
                 msgs.append("flowdemux-not-same-packet: the output got another object than the packet put")
         if obs["received"] != len(case["flows"]):
@@ -980,10 +1125,12 @@ class C18(Prop):
 
     def mon_fibdemux(self, case, obs):
         msgs = []
-        n = case["outs"] or 0
-        desc = f"FIBDemux(fib={case['fib']}, outs={case['outs']}, ends={case['ends']}, default={case['default']})"
         nput = 0
-        for f, r in zip(case["flows"], obs["res"]):
+        for f, r, st in zip(case["flows"], obs["res"], self._states(case)):
+            n = st["outs"] or 0
+            rc = " as reconfigured by %s" % [o for o in case["reconf"]] if case.get("reconf") else ""
+            desc = f"FIBDemux(fib={st['fib']}, outs={st['outs']}, ends={st['ends']}, default={st['default']}){rc}"
+            case = dict(case, fib=st["fib"], ends=st["ends"], default=st["default"])
             if case["fib"] is None:
                 if r["deliv"]:
                     msgs.append(f"fibdemux-no-table-delivers: {desc}.put(flow {f}) handed the packet to {r['deliv']} without a table")
@@ -1028,8 +1175,10 @@ class C18(Prop):
             msgs.append("switch-fair-wiring: egress_ports[i].out is not ports[i]")
         if obs["sim_raised"]:
             msgs.append(f"switch-fair-sim-raises: {obs['sim_raised']}")
+        states = self._states(case)
         for j, (f, r) in enumerate(zip(case["flows"], obs["res"])):
             sch = [s[:2] for s in obs["sched"] if s[2] == j]
+            case = dict(case, fib=states[j]["fib"], ends=states[j]["ends"])
             if case["fib"] is None:
                 if r["deliv"] or sch:
                     msgs.append(f"switch-fair-no-table-delivers: flow {f} reached {r['deliv']} {sch} without a table")
@@ -1064,45 +1213,68 @@ class C18(Prop):
             msgs.append("hub-wiring: endpoint.out is not the hub or port.out is not its endpoint")
         if not ports:
             eps = [[e[0], False] for e in eps]        # an empty ports list means: no port devices
-        alleps = eps + [list(e) for e in case["added"]]
-        for s, r in zip(case["srcs"], obs["res"]):
+        pop = [list(e) for e in eps]                  # the population attached so far
+        res = iter(obs["res"])
+        nattach = 0
+        for act in self._hub_script(case):
+            if act[0] == "attach":
+                pop.append([act[1], act[2]])
+                nattach += 1
+                continue
+            if act[0] == "rename":
+                if act[1] < len(pop):
+                    pop[act[1]][0] = act[2]
+                continue
+            s, r = act[1], next(res)
+            when = f" (after {nattach} add_endpoint calls, {len(pop)} endpoints attached)" if nattach else ""
             if r["raised"]:
                 msgs.append(f"hub-put-raises: {r['raised']}")
                 continue
             got_ep = [e[1] for e in r["events"] if e[0] == "ep"]
             got_port = [e[1] for e in r["events"] if e[0] == "port"]
-            exp_ep = [i for i, e in enumerate(alleps) if e[0] != s]
-            exp_port = [i for i, e in enumerate(alleps) if e[0] != s and e[1]]
-            senders = [i for i, e in enumerate(alleps) if e[0] == s]
+            exp_ep = [i for i, e in enumerate(pop) if e[0] != s]
+            exp_port = [i for i, e in enumerate(pop) if e[0] != s and e[1]]
+            senders = [i for i, e in enumerate(pop) if e[0] == s]
             if any(i in got_ep or i in got_port for i in senders):
-                msgs.append(f"hub-sender-gets-packet: src e{s}: endpoints {sorted(got_ep)} got the packet, sender(s) {senders} included")
+                msgs.append(f"hub-sender-gets-packet: src e{s}{when}: endpoints {sorted(got_ep)} got the packet, sender(s) {senders} included")
             elif sorted(got_ep) != exp_ep:
-                msgs.append(f"hub-not-exactly-once: src e{s}: endpoints {sorted(got_ep)} got the packet; expected each of {exp_ep} once")
+                msgs.append(f"hub-not-exactly-once: src e{s}{when}: endpoints {sorted(got_ep)} got the packet; expected each of {exp_ep} once")
             elif sorted(got_port) != exp_port:
-                msgs.append(f"hub-port-device-bypassed: src e{s}: port devices {sorted(got_port)} got the packet; expected {exp_port}")
+                msgs.append(f"hub-port-device-bypassed: src e{s}{when}: port devices {sorted(got_port)} got the packet; expected {exp_port}")
             elif not r["same"]:
                 msgs.append("hub-not-same-packet: an endpoint got another object than the packet put")
         return msgs
 
-    def mon_splitter(self, case, obs):
+    def _mon_split_round(self, att, hdr, b, what=""):
         msgs = []
-        if obs["raised"]:
-            return [f"splitter-raises: {obs['raised']}"]
-        att = case["att"]
-        b, a = obs["before"], obs["after"]
         exp_outs = [i for i, x in enumerate(att) if x]
         if sorted(v[0] for v in b) != exp_outs:
-            msgs.append(f"splitter-outputs: outputs {[v[0] for v in b]} got a packet; attached are {exp_outs}")
-            return msgs
+            return [f"splitter-outputs: {what}outputs {[v[0] for v in b]} got a packet; attached are {exp_outs}"]
         for v in b:
             if v[0] == 0 and v[1] != 0:
-                msgs.append("splitter-first-not-original: the first output did not get the original packet object")
+                msgs.append(f"splitter-first-not-original: {what}the first output did not get the original packet object")
             if v[0] != 0 and v[1] == 0:
-                msgs.append(f"splitter-no-copy: output {v[0]} got the original object, not a copy")
-            if v[2] != case["hdr"]:
-                msgs.append(f"splitter-copy-differs: output {v[0]} header {v[2]} != original {case['hdr']}")
+                msgs.append(f"splitter-no-copy: {what}output {v[0]} got the original object, not a copy")
+            if v[2] != hdr:
+                msgs.append(f"splitter-copy-differs: {what}output {v[0]} header {v[2]} != original {hdr}")
         if len(set(v[1] for v in b)) != len(b):
-            msgs.append(f"splitter-shared-object: object ids handed out {[v[1] for v in b]} are not pairwise distinct")
+            msgs.append(f"splitter-shared-object: {what}object ids handed out {[v[1] for v in b]} are not pairwise distinct")
+        return msgs
+
+    def mon_splitter(self, case, obs):
+        msgs = []
+        for k_, (att, r) in enumerate(zip(case.get("pre", []), obs.get("pre", []))):
+            if r["raised"]:
+                return [f"splitter-raises: {r['raised']}"]
+            msgs += self._mon_split_round(att, case["hdr"], r["view"], f"round {k_} (outputs re-pointed to {att}): ")
+        if obs["raised"]:
+            return [f"splitter-raises: {obs['raised']}"]
+        b, a = obs["before"], obs["after"]
+        what = f"after {len(case['pre'])} earlier rounds with other outputs: " if case.get("pre") else ""
+        m = self._mon_split_round(case["att"], case["hdr"], b, what)
+        msgs += m
+        if m and m[0].startswith("splitter-outputs"):
+            return msgs
         # independent mutation: replay the assignments on private copies of the header
         exp = [list(case["hdr"]) for _ in b]
         for j, fld, val in case["mut"]:
@@ -1272,7 +1444,7 @@ class C18(Prop):
         if kd in ("flowdemux", "fibdemux", "switch"):
             return len(case["flows"]) >= 1
         if kd == "hub":
-            return len(case["eps"]) + len(case["added"]) >= 1
+            return len(case["eps"]) + sum(1 for a in self._hub_script(case) if a[0] == "attach") >= 1
         if kd == "splitter":
             return sum(case["att"]) >= 2
         if kd == "fattree":
@@ -1290,7 +1462,9 @@ class C18(Prop):
                 for i in range(len(l)):
                     yield {**case, key: l[:i] + l[i + 1:]}
         if kd in ("flowdemux", "fibdemux", "switch"):
-            yield from drop("flows")
+            yield from drop("reconf")
+            if not case.get("reconf"):
+                yield from drop("flows")
             for key in ("fib", "ends", "raising"):
                 yield from drop(key)
             if kd == "flowdemux" and case["nouts"] > 0:
@@ -1305,6 +1479,7 @@ class C18(Prop):
                 if abs(f) > 1:
                     yield {**case, "flows": case["flows"][:i] + [f // 2 if f > 0 else -((-f) // 2)] + case["flows"][i + 1:]}
         elif kd == "hub":
+            yield from drop("script")
             yield from drop("srcs")
             yield from drop("added")
             if case["delta"] == 0:
@@ -1313,11 +1488,13 @@ class C18(Prop):
                 if e[1]:
                     yield {**case, "eps": case["eps"][:i] + [[e[0], False]] + case["eps"][i + 1:]}
         elif kd == "splitter":
+            yield from drop("pre")
             yield from drop("mut")
             if case["cls"] == "NSplitter" and len(case["att"]) > 2:
                 for i in range(len(case["att"])):
                     na = case["att"][:i] + case["att"][i + 1:]
-                    yield {**case, "att": na, "mut": [m for m in case["mut"] if m[0] < sum(na)]}
+                    yield {**case, "att": na, "mut": [m for m in case["mut"] if m[0] < sum(na)],
+                           "pre": [p_[:i] + p_[i + 1:] for p_ in case.get("pre", [])]}
         elif kd == "fattree":
             if case["k"] > 2:
                 yield {**case, "k": case["k"] - 2}
@@ -1352,6 +1529,8 @@ class C18(Prop):
         kd = case["kind"]
         keys = [kd]
         if kd in ("flowdemux", "fibdemux", "switch"):
+            if case.get("reconf"):
+                keys.append(kd + ":reconfigured-between-packets")
             if any(f < 0 for f in case["flows"]):
                 keys.append(kd + ":negative-flow-id")
             if kd == "flowdemux" and case["nouts"] == 0:
@@ -1374,14 +1553,32 @@ class C18(Prop):
             if kd == "switch":
                 keys.append(kd + ":" + case["sw"])
         elif kd == "hub":
-            keys.append("hub:n=%d" % (len(case["eps"]) + len(case["added"])))
+            script = self._hub_script(case)
+            nat = sum(1 for a in script if a[0] == "attach")
+            keys.append("hub:n=%d" % (len(case["eps"]) + nat))
             keys.append("hub:ports-list" if case["ports_arg"] else "hub:no-ports-list")
-            ids = [e[0] for e in case["eps"] + case["added"]]
-            keys.append("hub:sender-attached" if any(s in ids for s in case["srcs"]) else "hub:sender-not-attached")
+            ids = [e[0] for e in case["eps"]] + [a[1] for a in script if a[0] == "attach"]
+            sends = [a[1] for a in script if a[0] == "send"]
+            keys.append("hub:sender-attached" if any(x in ids for x in sends) else "hub:sender-not-attached")
+            seen, late = set(), False
+            for a in script:
+                if a[0] == "send":
+                    late = late or (a[1] in seen and "attached" in seen)
+                    seen.add(a[1])
+                elif a[0] == "attach" and seen - {"attached"}:
+                    seen.add("attached")
+            if late:
+                keys.append("hub:resend-after-late-attach")
+            if not case["eps"]:
+                keys.append("hub:starts-empty")
+            if any(a[0] == "rename" for a in script):
+                keys.append("hub:element_id-reassigned")
         elif kd == "splitter":
             keys.append("splitter:n=%d" % len(case["att"]))
             if case["mut"]:
                 keys.append("splitter:mutation")
+            if case.get("pre"):
+                keys.append("splitter:outputs-re-pointed")
         elif kd == "fattree":
             keys.append("fattree:k=%d" % case["k"])
         elif kd == "fib":
